@@ -37,6 +37,7 @@ class Trace:
             prev_acks = r["acks"]
         # the FIFO of queued acks -> originating call
         self.ack_call = {}
+        self.ack_is_update = {}
         fifo = []
         self.executed = {}       # worker event index -> ack id executed (or 'shutdown')
         for i, r in enumerate(recs):
@@ -46,7 +47,11 @@ class Trace:
             ret = r["ret"]
             if p[0] in ("call", "run") and ret and ret[0] == 0:
                 call = self.pending_call(i) if p[0] == "run" else p[2:]
+                ci = self.pending_call_index(i) if p[0] == "run" else i
                 self.ack_call[ret[1]] = (i, call)
+                # an upsert that found its key physically present at call time queues UpdateWeight, otherwise a put
+                k = key_of_call(call)
+                self.ack_is_update[ret[1]] = (call[0] == "upsert" and ci is not None and k in self.store_before(ci))
                 if self.worker_role(i, before=True) == "alive":
                     fifo.append(ret[1])
             if p[0] == "call" and p[2] == "shutdown" and ret and ret[0] == 5 and self.before[i]["shut"] == 0:
@@ -76,6 +81,14 @@ class Trace:
             if p[0] == "call" and p[1] == tid and not self.recs[j]["skipped"] and self.recs[j]["ret"] and self.recs[j]["ret"][0] == 3:
                 return p[2:]
         return ["?"]
+
+    def pending_call_index(self, i):
+        tid = self.recs[i]["ev"].split()[1]
+        for j in range(i - 1, -1, -1):
+            p = self.recs[j]["ev"].split()
+            if p[0] == "call" and p[1] == tid and not self.recs[j]["skipped"] and self.recs[j]["ret"] and self.recs[j]["ret"][0] == 3:
+                return j
+        return None
 
     def store_before(self, i):
         return {e[0]: e for e in self.before[i]["store"]}
@@ -142,9 +155,7 @@ def mon_C01(t):
             p = r["ev"].split()
             sig = "weight-over-limit"
             if p[0] == "worker" and i in t.executed and t.executed[i] in t.ack_call:
-                call = t.ack_call[t.executed[i]][1]
-                k = key_of_call(call)
-                if call[0] == "upsert" and k in t.store_before(i):
+                if t.ack_is_update.get(t.executed[i]):
                     sig = "update-weight-exceeds-free-space"
             out.append(fail(t, i, sig, "total weight used %d exceeds the cache weight %d after this event (was %d)" % (ua, mx, ub)))
         # an accepted put always leaves the total within the limit
@@ -152,7 +163,7 @@ def mon_C01(t):
         if p[0] == "worker" and i in t.executed and t.executed[i] in t.ack_call:
             a = t.executed[i]
             call = t.ack_call[a][1]
-            if call[0].startswith("put") and a < len(r["acks"]) and r["acks"][a] == 1 and ua > mx:
+            if (call[0].startswith("put") or (call[0] == "upsert" and not t.ack_is_update.get(a))) and a < len(r["acks"]) and r["acks"][a] == 1 and ua > mx:
                 out.append(fail(t, i, "accepted-put-over-limit", "an accepted put left the total at %d > %d" % (ua, mx)))
     return out
 
@@ -338,7 +349,7 @@ def mon_C06(t):
             continue
         k = key_of_call(call)
         sb, sa = t.store_before(i), t.store_after(i)
-        if call[0] == "upsert" and k in sb:
+        if t.ack_is_update.get(a):
             continue      # an UpdateWeight command
         status = r["acks"][a] if a < len(r["acks"]) else 0
         if status in (0, 5, 6):
@@ -426,7 +437,7 @@ def mon_C07(t):
             a = t.executed[i]
             ci, call = t.ack_call[a]
             status = r["acks"][a] if a < len(r["acks"]) else 0
-            if (call[0].startswith("put") or call[0] == "upsert") and status == 5:
+            if (call[0].startswith("put") or call[0] == "upsert") and status == 5 and not t.ack_is_update.get(a):
                 k = key_of_call(call)
                 ent = t.store_before(i).get(k)
                 if ent is None:
@@ -669,7 +680,7 @@ def mon_C16(t):
         if p[0] == "worker" and i in t.executed and t.executed[i] in t.ack_call:
             a = t.executed[i]
             call = t.ack_call[a][1]
-            if (call[0].startswith("put") or call[0] == "upsert") and a < len(r["acks"]) and r["acks"][a] in (2, 3):
+            if (call[0].startswith("put") or call[0] == "upsert") and not t.ack_is_update.get(a) and a < len(r["acks"]) and r["acks"][a] in (2, 3):
                 refused += 1
         s = r["snap"]
         st = s["stats"]
